@@ -9,6 +9,7 @@
 From Coq Require Import NArith List Bool String Permutation.
 From Mpc Require Import Gen.MapSites Lang.Determ Lang.DetermSites Lang.DetermProof Lang.DetermF5 Lang.Hist Lang.HistProof Lang.RunC08.
 Import ListNotations.
+From Mpc Require Gen.State Base.StateExpected Base.StateCheck Base.StatePkgs.
 Open Scope string_scope.
 Open Scope list_scope.
 
@@ -221,3 +222,16 @@ Theorem C08_pkg_init_enumerated : forall (cls : msite -> site_class) (o : oracle
         pkg_init fuel (range_keys cls o) pkgs st p = pkg_init fuel (range_keys cls (oracle_of_table t)) pkgs st p.
 Proof. exact pkg_init_enumerated. Qed.
 Print Assumptions C08_pkg_init_enumerated.
+
+(* STATE INVENTORY (finite obligation on the model regenerated from the source, checked by
+   computation).  The struct fields and package-level variables of the Go packages this
+   property is anchored in — apps/garbled, compiler, compiler/ast, compiler/circuits, compiler/ssa — as emitted from /repo's current
+   source by harness/gen_state.go (Gen/State.v) are exactly those the models above were written
+   against (Base/StateExpected.v).  A new field or variable (a cache, a memo, a pool, a counter,
+   a changed field type) is state the models do not have: this obligation then breaks and the
+   property is no longer shown to hold until the change has been reviewed against the model. *)
+Theorem C08_state_inventory :
+  Mpc.Base.StateCheck.state_unchanged Mpc.Gen.State.state_inventory Mpc.Base.StateExpected.expected_state
+    Mpc.Base.StatePkgs.pkgs_C08 = true.
+Proof. vm_compute. reflexivity. Qed.
+Print Assumptions C08_state_inventory.
